@@ -722,14 +722,11 @@ SYMDEREF_EXEMPT = {
     ("checkExpression", "expr[0]", "FORALL"): "binder identifier (see print)",
     ("checkExpression", "expr[0]", "EXISTS"): "binder identifier (see print)",
     ("checkExpression", "expr[0]", "SUM"): "binder identifier (see print)",
-    ("collect_possible_reads", "get(0)", "FUN_CALL"):
-        "child 0 of a FUN_CALL; the callee's type is a function type, which the type checker gives only to the identifier "
-        "of a function (operators on such an operand are rejected with $Type_error before the call is looked at)",
-    ("collect_possible_writes", "get(0)", "FUN_CALL"): "as collect_possible_reads",
-    ("collect_possible_writes", "get(0)", "FUN_CALL_EXT"): "as collect_possible_reads",
 }
 # An earlier version of this table also listed the SPAWN / NUMOF clauses of checkExpression and the PROCESS_SET case of
-# expr_call_end ("the name was resolved before the node is built").  Both were wrong: `numOf(nosuch)` builds NUMOF over
+# expr_call_end ("the name was resolved before the node is built"), and later the FUN_CALL clauses of collect_possible_reads /
+# collect_possible_writes ("only the identifier of a function has a function type": wrong too, `p.g` with p a dynamic
+# process is DYNAMIC_EVAL with the type of g and no symbol; crashed, E11-2, repaired in /repo).  Both were wrong: `numOf(nosuch)` builds NUMOF over
 # the constant that expr_identifier pushes after reporting the unknown name, and `(-P)(0)` has the type of a process set
 # without being a name; both crashed (found by a defect-hunt sub-agent, repaired in /repo).  Entries are now per kind.
 
